@@ -235,7 +235,7 @@ func mutate(e *env, s string) string {
 	case 6: // lone CRs
 		return strings.ReplaceAll(s, "\n", "\r")
 	case 7: // a very long line
-		return s + "  " + strings.Repeat("z", 70000) + ": 1\n"
+		return s + "  " + strings.Repeat("z", 70000+longLineLen()) + ": 1\n"
 	case 8: // random bytes spliced in
 		i := e.rng.Intn(len(b) + 1)
 		r := make([]byte, 1+e.rng.Intn(12))
